@@ -102,3 +102,27 @@ func VT_stack_script() {
 	p, pok := s.Peek(2)
 	vOut("stack", v, ok, p, pok, s.Slice(), s.Len(), s.Top())
 }
+
+// VH_stack_FarPeek: Peek for every offset in the int range.
+func VH_stack_FarPeek() {
+	n := vCase("n")
+	s := New[int]()
+	ref := make([]int, n)
+	for i := range ref {
+		ref[i] = vOrd("x")
+		s.Push(ref[i])
+	}
+	k := vInt("k")
+	vCover("stack-far-peek")
+	if k < 0 {
+		panicked, _ := vPanics(func() { s.Peek(k) })
+		vAssert(panicked, "Peek(k) panics for k < 0, however far")
+		return
+	}
+	got, ok := s.Peek(k)
+	vAssert(ok == (k < n), "Peek(k) ok iff k < Len, for every k")
+	for c := 0; c < n; c++ {
+		vAssert(vImplies(k == c, got == ref[n-1-c]), "Peek(k) is the k-th from the top")
+	}
+	vAssert(vImplies(k >= n, got == 0), "Peek out of range is zero")
+}
